@@ -8,14 +8,22 @@ The producer of the records that `ModelGraph.lean` validates, mirroring the call
 * bound/type updates of a flat variable (no export until the push)                             (`Ev.setVar`)
 * `ConstraintKeeper<…>::AddConstraint` → `ExportConstraint(cons_.size()-1, …)`                 (`Ev.store ty`)
 * `ConstraintKeeper::MarkAsBridged / MarkAsUnused(i)` (guard `check_index(i)`)                 (`Ev.bridge`, `Ev.unuse`)
+* `ValueNode::Add(n)` on one of the append-only value nodes `src_vars()`, `src_cons()`, `src_objs()`, `dest_objs()`
+  (`ProblemFlattener::ConvertVars/Convert(obj)/ConvertAlgCon/ConvertLogicalCon`): the node's items ARE what has been
+  added                                                                                         (`Ev.addItems node n`)
 * an exported link record (`ExportLinkEntry`; when it is exported and with which extent is the subject of
-  `ModelExport.lean`) — guarded by "every endpoint lies inside the size its value node has **now**"  (`Ev.link`)
+  `ModelExport.lean`).  `ExportLinkEntry` has **no range check** and `ValueNode::Select` would silently grow a node, so
+  the model has none either: the only condition on a link event is that each endpoint is a `NodeRange` value that exists,
+  i.e. it starts where a range handed out by `Select`/`Add` starts and ends where one ends (`covered`; consecutive ranges
+  are merged by `TryExtendBy`).  Ranges are handed out at the call sites only for the item just created
+  (`AddVar` → `Select(v)`, `AddConstraintAndTryNoteResultVariable` → `SelectValueNodeRange(i)`, `Add()` per NL item and per
+  delivered constraint), which is what makes "node size ≤ item count" an invariant rather than an assumption  (`Ev.link`)
 * `FlatModel::PushModelTo`: `ExportVars(0, all, "Updated …")`, then for every keeper in priority order
   `AddAllUnbridged` (hand every non-bridged constraint to the ModelAPI and `ExportConStatus` for every stored
   constraint), then `LogConstraintGroups`                                                       (`Ev.finish`)
 
-Events whose guard fails (an index outside the keeper, an endpoint outside its node, anything but a link after the
-push, a second push) change nothing but the counter `rejected`; they correspond to `assert`s in the C++.
+Events whose guard fails (an index outside the keeper — `check_index` —, anything but a link after the push, a second
+push, an endpoint that is not made of handed-out ranges) change nothing but the counter `rejected`.
 The constraint types (keepers) and their order, the constraint group of each type, the final names and the sizes of
 the NL-side value nodes are parameters (`Cfg`).
 -/
@@ -29,13 +37,15 @@ structure Cfg where
   types : List Str                    -- keepers in priority order (distinct)
   grp : Str → Nat                     -- constraint group of a type in the ModelAPI
   name : Str → Nat → Str              -- final name of stored constraint `i` of type `ty`
-  static : List (Str × Nat)           -- sizes of `src_vars()`, `src_cons()`, `src_objs()`, `dest_objs()`
+  addNodes : List Str                 -- the append-only value nodes: `src_vars()`, `src_cons()`, `src_objs()`, `dest_objs()`
 
 structure XState where
   vars : List (Bool × VarInfo) := []          -- flat variables: (is_from_nl, current type/bounds class)
   cons : Str → List CStat := fun _ => []      -- stored constraints per type
   out : List Rec := []                        -- the exported records
   delivered : List DCon := []                 -- what `AddAllUnbridged` handed to the ModelAPI
+  extra : Str → Nat := fun _ => 0             -- number of items `Add`ed to each append-only node
+  created : List NodeRef := []                -- every `NodeRange` handed out by `Select`/`Add` (except on `dest_cons(g)`)
   finished : Bool := false
   rejected : Nat := 0
 
@@ -45,6 +55,7 @@ inductive Ev where
   | store (ty : Str)
   | bridge (ty : Str) (i : Nat)
   | unuse (ty : Str) (i : Nat)
+  | addItems (node : Str) (n : Nat)
   | link (lty : Str) (entry : Nat) (src dst : List NodeRef)
   | finish
 
@@ -76,9 +87,8 @@ def varRecs : Nat → List (Bool × VarInfo) → List Rec
 /-- current size of the item class a link endpoint names (the value node's size at this moment) -/
 def sizeNow (cfg : Cfg) (s : XState) (node : Str) : Option Nat :=
   if node = cl!"dest_vars()" then some s.vars.length
-  else match cfg.static.lookup node with
-    | some n => some n
-    | none =>
+  else if cfg.addNodes.contains node then some (s.extra node)
+  else
       match destConsGroup? node with
       | some g => some (s.delivered.filter (fun c => c.grp == g)).length
       | none => if cfg.types.contains node then some (s.cons node).length else none
@@ -87,6 +97,14 @@ def refIn (cfg : Cfg) (s : XState) (r : NodeRef) : Bool :=
   match sizeNow cfg s r.node with
   | some sz => decide (r.beg ≤ r.last) && decide (r.last < sz)
   | none => false
+
+/-- is the endpoint a `NodeRange` that exists: on `dest_cons(g)` one `Add()`ed range per delivered constraint; elsewhere it
+    starts where a handed-out range starts and ends where one ends -/
+def covered (cfg : Cfg) (s : XState) (r : NodeRef) : Bool :=
+  decide (r.beg ≤ r.last) &&
+  (match destConsGroup? r.node with
+   | some g => !(r.node = cl!"dest_vars()") && !cfg.addNodes.contains r.node && decide (r.last < (s.delivered.filter (fun c => c.grp == g)).length)
+   | none => s.created.any (fun a => a.node = r.node && a.last = r.last))
 
 def reject (s : XState) : XState := { s with rejected := s.rejected + 1 }
 
@@ -97,10 +115,25 @@ def finishRecs (cfg : Cfg) (s : XState) : List Rec :=
 def finishState (cfg : Cfg) (s : XState) : XState :=
   { s with out := s.out ++ finishRecs cfg s, delivered := (allFinish cfg s.cons cfg.types).2, finished := true }
 
+/-- `AddVar`: new flat variable, its record, and the range `Select(v)` of the new item -/
+def addVarState (s : XState) (b : Bool) (info : VarInfo) : XState :=
+  { s with vars := s.vars ++ [(b, info)], out := s.out ++ [Rec.var s.vars.length b info],
+           created := s.created ++ [⟨cl!"dest_vars()", s.vars.length, s.vars.length⟩] }
+
+/-- `AddConstraint` + `ExportConstraint` + `SelectValueNodeRange(i)` of the new item -/
+def storeState (s : XState) (ty : Str) : XState :=
+  { s with cons := updCons s.cons ty (s.cons ty ++ [.fresh]), out := s.out ++ [Rec.conNew ty (s.cons ty).length],
+           created := s.created ++ [⟨ty, (s.cons ty).length, (s.cons ty).length⟩] }
+
+/-- `ValueNode::Add(n)` on an append-only node -/
+def addItemsState (s : XState) (node : Str) (n : Nat) : XState :=
+  { s with extra := fun t => if t = node then s.extra node + n else s.extra t,
+           created := s.created ++ [⟨node, s.extra node, s.extra node + n - 1⟩] }
+
 def xev (cfg : Cfg) (s : XState) : Ev → XState
   | .addVar b info =>
     if s.finished then reject s
-    else { s with vars := s.vars ++ [(b, info)], out := s.out ++ [Rec.var s.vars.length b info] }
+    else addVarState s b info
   | .setVar i info =>
     if s.finished then reject s
     else match s.vars[i]? with
@@ -108,15 +141,18 @@ def xev (cfg : Cfg) (s : XState) : Ev → XState
       | none => reject s
   | .store ty =>
     if s.finished || !cfg.types.contains ty then reject s
-    else { s with cons := updCons s.cons ty (s.cons ty ++ [.fresh]), out := s.out ++ [Rec.conNew ty (s.cons ty).length] }
+    else storeState s ty
   | .bridge ty i =>
     if s.finished || !cfg.types.contains ty || !decide (i < (s.cons ty).length) then reject s
     else { s with cons := updCons s.cons ty (setAt (s.cons ty) i .bridged) }
   | .unuse ty i =>
     if s.finished || !cfg.types.contains ty || !decide (i < (s.cons ty).length) then reject s
     else { s with cons := updCons s.cons ty (setAt (s.cons ty) i .unused) }
+  | .addItems node n =>
+    if s.finished || !cfg.addNodes.contains node || n = 0 then reject s
+    else addItemsState s node n
   | .link lty e src dst =>
-    if src.all (refIn cfg s) && dst.all (refIn cfg s) then { s with out := s.out ++ [Rec.link lty e src dst] }
+    if src.all (covered cfg s) && dst.all (covered cfg s) then { s with out := s.out ++ [Rec.link lty e src dst] }
     else reject s
   | .finish =>
     if s.finished then reject s
